@@ -53,12 +53,84 @@ def compare(got: list[float], want: list[Fraction], tol: float) -> dict | None:
     return {"ok": worst}
 
 
+class Fresh:
+    """Presentation of the arguments used by the plain replay: a fresh aggregator object and a fresh tensor per call."""
+
+    def run(self, key, mk, X, res):
+        A = mk()
+        return A, A(X), X
+
+
+class OneObject:
+    """History presentation (spec/Impartial.tla, family "hist"): ONE aggregator object per configuration `key` and
+    ONE tensor buffer per shape, refilled in place (copy_) between the calls.  Before every regular matrix handed
+    to an object, that object is taken through the non-regular calls of the next word of the model (seeded
+    choice): "zero" = the all-zero matrix of the shape (judged: the zero vector), "zrow" = the object's previous
+    regular matrix with one row replaced by zeros (a finite matrix outside the regular clause: unjudged)."""
+
+    def __init__(self, words: list[list[str]], rng: random.Random):
+        self.words, self.rng = words, rng
+        self.objs: dict = {}
+        self.last: dict = {}
+        self.bufs: dict = {}
+        self.calls = {"reg": 0, "zero": 0, "zrow": 0, "zrow_raised": 0, "objects": 0, "reg_after_other_kind": 0}
+
+    def run(self, key, mk, X, res):
+        if key not in self.objs:
+            self.objs[key] = mk()
+            self.calls["objects"] += 1
+        A = self.objs[key]
+        bk = (tuple(X.shape), X.dtype)
+        if bk not in self.bufs:
+            self.bufs[bk] = torch.empty_like(X)
+        buf = self.bufs[bk]
+        word = self.rng.choice(self.words)
+        for kind in word[:-1]:                        # every word ends with the regular call made below
+            if kind == "reg":
+                prev = self.last.get(key)
+                if prev is None or prev.shape != buf.shape:
+                    continue
+                buf.copy_(prev)                       # an earlier regular matrix once more (value judged back then)
+                A(buf)
+                self.calls["reg"] += 1
+            elif kind == "zero":
+                buf.zero_()
+                out = A(buf)
+                self.calls["zero"] += 1
+                if tuple(out.shape) != (X.shape[1],) or not bool((out == 0).all()):
+                    res["fails"].append({"agg": _kname(key), "e": 0, "what": "all-zero matrix not mapped to the zero vector",
+                                         "got": out.tolist(), "why": f"non-zero (object with a call history, {X.shape[0]}x{X.shape[1]})"})
+            else:
+                prev = self.last.get(key)
+                if prev is None or prev.shape != buf.shape:
+                    continue
+                buf.copy_(prev)
+                buf[self.rng.randrange(buf.shape[0])] = 0.0
+                try:
+                    A(buf)
+                except Exception:                     # noqa: BLE001   (outside the statement: nothing is demanded)
+                    self.calls["zrow_raised"] += 1
+                self.calls["zrow"] += 1
+        buf.copy_(X)
+        self.last[key] = X
+        self.calls["reg"] += 1
+        self.calls["reg_after_other_kind"] += 1 if any(k != "reg" for k in word[:-1]) else 0
+        return A, A(buf), buf
+
+
+def _kname(key) -> str:
+    return key[0] + "(" + " ".join(str(k) for k in key[1:]) + ")"
+
+
+FRESH = Fresh()
+
+
 def _aggs():
     from torchjd.aggregation import IMTLG, AlignedMTL, ConFIG
     return IMTLG, ConFIG, AlignedMTL
 
 
-def run_pyth(scn: dict, exps: list[int]) -> dict:
+def run_pyth(scn: dict, exps: list[int], pool=FRESH) -> dict:
     IMTLG, ConFIG, _ = _aggs()
     J, m, n = scn["J"], scn["m"], scn["n"]
     res = {"fails": [], "evals": 0, "worst": 0.0, "skipped": []}
@@ -75,9 +147,8 @@ def run_pyth(scn: dict, exps: list[int]) -> dict:
         wantA, wantw = [frac(q) for q in im["A"]], [frac(q) for q in im["w"]]
         tolw = 64 * EPS * scn["kb"] * W
         for e in exps:
-            X = scaled(J, e)
-            A = IMTLG()
-            out = unscale(A(X), e)
+            A, o, X = pool.run(("IMTLG",), IMTLG, scaled(J, e), res)
+            out = unscale(o, e)
             w = A.weighting(X).tolist()
             res["evals"] += 1
             for what, got, want, tol in (("weights", w, wantw, tolw),
@@ -102,8 +173,7 @@ def run_pyth(scn: dict, exps: list[int]) -> dict:
                 variants.append(("default", lambda: ConFIG()))
             for vname, mk in variants:
                 for e in exps:
-                    X = scaled(J, e)
-                    out = unscale(mk()(X), e)
+                    out = unscale(pool.run(("ConFIG", vname, tuple(u)), mk, scaled(J, e), res)[1], e)
                     res["evals"] += 1
                     c = compare(out, want, tol)
                     if "ok" in c:
@@ -120,7 +190,7 @@ def run_pyth(scn: dict, exps: list[int]) -> dict:
     return res
 
 
-def run_aligned(scn: dict, exps: list[int]) -> dict:
+def run_aligned(scn: dict, exps: list[int], pool=FRESH) -> dict:
     _, _, AlignedMTL = _aggs()
     m, n = scn["m"], scn["n"]
     res = {"fails": [], "evals": 0, "worst": 0.0, "skipped": []}
@@ -136,7 +206,7 @@ def run_aligned(scn: dict, exps: list[int]) -> dict:
         for vname, mk in variants:
             for e in exps:
                 X = scaled(case["Jnum"], e, case["Jden"])
-                out = unscale(mk()(X), e)
+                out = unscale(pool.run(("AlignedMTL", vname, tuple(u), uden), mk, X, res)[1], e)
                 res["evals"] += 1
                 c = compare(out, want, tol)
                 if "ok" in c:
@@ -328,6 +398,21 @@ def run_wide_pyth(scn: dict, exps: list[int]) -> dict:
                         res["fails"].append({"agg": f"ConFIG({vname} u={u} float64)", "e": e, "what": "value",
                                              "want": [str(q) for q in want], **c})
     return res
+
+
+def run_history(item) -> dict:
+    """item = (scenarios of ONE shape m x n from the exact families "pyth" and "aligned", exponents, seed, words):
+    all of them - in a seeded order, every one at every scale - through one OneObject pool; the expected values and
+    allowances are those of the plain replay, per instance."""
+    scns, exps, seed, words = item
+    rng = random.Random(seed)
+    pool = OneObject(words, rng)
+    order = list(range(len(scns)))
+    rng.shuffle(order)
+    out: list = [None] * len(scns)
+    for i in order:
+        out[i] = (run_pyth if scns[i]["fam"] == "pyth" else run_aligned)(scns[i], exps, pool)
+    return {"results": out, "calls": pool.calls}
 
 
 def run_scenario(item) -> dict:
